@@ -1365,7 +1365,8 @@ NiShape* NifFile::CloneShape(NiShape* srcShape, const std::string& destShapeName
 	if (destBoneCont)
 		destBoneCont->boneRefs.Clear();
 
-	if (rootNode && srcRootNode) {
+	// Within the same file all nodes exist already, there is nothing to clone or move
+	if (rootNode && srcRootNode && srcNif != this) {
 		std::function<void(NiNode*)> cloneNodes = [&](NiNode* srcNode) -> void {
 			std::string boneName = srcNode->name.get();
 
